@@ -393,7 +393,7 @@ def describe(spec):
 # ---------------------------------------------------------------- oracle
 
 def check_spec(spec, case):
-    """Write the directory, load main.p8 with picotool, compare with the reference splice. Returns labels."""
+    """Write the directory, load main.p8 with picotool, compare with the reference splice."""
     from pico8.game import file as pfile
     segs, incs = reference(spec)
     missing = [path for (_i, path, _sel, t) in incs if t is None]
